@@ -145,7 +145,7 @@ PROPERTIES['C09'] = {
         ('32', 'numprop4_flags', (16, 12, 0, 0, 0, 1, 0, 1, 0, 0), 'q', 4),
         ('64', 'numprop4_runs2', (16, 12, 0, 0, 3, 2, 24, 2, 4, 0), 't', 4),
         ('64', 'anyprop_flags', (16, 12, 0, 0, 0, 1, 0, 1, 0, 0), 't', None),
-        ('64', 'tangents', (12, 12, 0, 0, 0, 0, 0, 0, 0, 48), 'q', 3),
+        ('64', 'tangents', (12, 12, 0, 0, 0, 0, 0, 0, 0, 48), 'q', 3),  # ~1000 s
         ('64', 'runs_3_2_full', (12, 12, 0, 0, 3, 2, 24, 2, 4, 0), 't', 3))
     ] + [
       dict(name='makeempty', harness='c09_ingest.cpp', entry='h_makeempty', defs={'VF_REAL_MAKEEMPTY': 1, 'VF_LENS': '0,0,0,0,0,0,0,0,0,0'}, models=['rbtree.h'], unwind={'default': 7, 'Rb_tree': 3}, recursion={'default': 2}, backends=['minisat'], timeout=900, object_bits=12, mem_gb=16,
@@ -280,8 +280,8 @@ for _p in ('C04', 'C13'):
         if 'defs_extra' in _o: _o['defs'].update(_o.pop('defs_extra'))
 
 PROPERTIES['C20'] = {
-  'level_text': 'Bounded model checking (differential) of the C binding sources against the C++ members they name: for all finite double arguments every manifold_box_* / manifold_rect_* function returns exactly what the C++ Box/Rect call returns and constructs at the caller-supplied address; the Error/OpType/JoinType tables are name-preserving and injective; scalar conversions keep component order; 14 forwarding wrappers of manifoldc.cpp call the C++ method they name exactly once, on the object passed, with bit-identical arguments in order, and build the result at the caller\'s address.',
-  'level_note': 'Covers bindings/c/box.cpp, rect.cpp and conv.cpp completely (value-level functions) and 14 forwarding wrappers of manifoldc.cpp (translate, scale, mirror, rotate, transform, trim_by_plane, smooth_out, refine, refine_to_length, refine_to_tolerance, set_tolerance, simplify, boolean, min_gap) with the C++ method replaced by a recording stub. The remaining ~230 wrappers of manifoldc.cpp / cross.cpp (MeshGL accessors and copies, vectors, callbacks, alloc/destruct/delete pairing, cross-section calls) are NOT covered by this check.',
+  'level_text': 'Bounded model checking (differential) of the C binding sources against the C++ members they name: for all finite double arguments every manifold_box_* / manifold_rect_* function returns exactly what the C++ Box/Rect call returns and constructs at the caller-supplied address; the Error/OpType/JoinType tables are name-preserving and injective; scalar conversions keep component order; 22 forwarding wrappers of manifoldc.cpp / cross.cpp call the C++ method they name exactly once, on the object passed, with bit-identical arguments in order, and build the result at the caller\'s address.',
+  'level_note': 'Covers bindings/c/box.cpp, rect.cpp and conv.cpp completely (value-level functions) and 22 forwarding wrappers: 14 of manifoldc.cpp (translate, scale, mirror, rotate, transform, trim_by_plane, smooth_out, refine, refine_to_length, refine_to_tolerance, set_tolerance, simplify, boolean, min_gap) and 8 of cross.cpp (translate, scale, mirror, rotate, simplify, transform, offset, boolean), with the C++ method replaced by a recording stub. The remaining ~220 wrappers of manifoldc.cpp / cross.cpp (MeshGL accessors and copies, vectors, callbacks, alloc/destruct/delete pairing, cross-section calls) are NOT covered by this check.',
   'obligations': [
     dict(name='box_accessors', harness='c20_cbind.cpp', entry='h_box', real='f16', defs={'VF_FB': 64, 'VF_PART': 1}, backends=['minisat', 'kissat'], timeout=600, unwind={'default': 7},
          claim='[part: min, max, dimensions, center, scale] manifold_box, _min, _max, _dimensions, _center, _scale, _contains_pt, _contains_box, _does_overlap_pt, _does_overlap_box, _is_finite, _union, _translate, _mul, _include_pt equal the C++ Box calls; placement at mem',
@@ -388,6 +388,8 @@ PROPERTIES['C08'] = {
   'obligations': [_C08_OBL, dict(_C08_OBL, name='export_t2_m2', defs={'VF_T': 2, 'VF_V': 3, 'VF_M': 2},
                                    bounds='2 triangles, 3 vertices, 2 mesh instances', claim='same at 2 triangles / 2 instances (cheaper second instantiation)')],
 }
+PROPERTIES['C08']['obligations'] += [dict(_C08_OBL, name='export_t2_m2_auto', defs={'VF_T': 2, 'VF_V': 3, 'VF_M': 2}, unwind={'auto': True, 'start': 3, 'max': 16, 'rounds': 30},
+    backends=['minisat', 'kissat'], timeout=2400, tiers=['experimental'], bounds='2 triangles, 3 vertices, 2 mesh instances', claim='same at 2 triangles / 2 instances, loop bounds found by search')]
 PROPERTIES['C07'] = {
   'level_text': 'Bounded model checking of the run table the exporter builds (the observable form of provenance): runs are contiguous, cover all triangles, are sorted by original ID, and each triangle\'s run names its own source instance (originalID, transform, back-side and normals flags) and its own face ID, for every assignment of triangles to instances.',
   'level_note': 'Run-table clause only (GetMeshGLImpl, numProp = 0, 3 triangles / 3 instances). MapTriRef/UpdateReference in the Boolean, CreateProperties/GetBarycentric interpolation, Transform composition and the geometric clause "triangle lies within tolerance of its source face" are outside this check.',
@@ -433,6 +435,24 @@ PROPERTIES['C20']['obligations'] += [
          bounds='all argument values (every 64-bit pattern of each double, every int); the C++ method, Manifold copy constructor and destructor are recording stubs (they live in manifold.cpp)',
          targets=['bindings/c/manifoldc.cpp ' + w, 'bindings/c/conv.cpp from_c/to_c'])
     for k, w, m, pat, stub in _FW]
+_FWCS = [
+  (1, 'manifold_cross_section_translate', 'CrossSection::Translate(vec2)', r'_ZNK8manifold12CrossSection9TranslateEN6linalg3vecIdLi2EEE', 'vf_stub_V2'),
+  (2, 'manifold_cross_section_scale', 'CrossSection::Scale(vec2)', r'_ZNK8manifold12CrossSection5ScaleEN6linalg3vecIdLi2EEE', 'vf_stub_V2'),
+  (3, 'manifold_cross_section_mirror', 'CrossSection::Mirror(vec2)', r'_ZNK8manifold12CrossSection6MirrorEN6linalg3vecIdLi2EEE', 'vf_stub_V2'),
+  (4, 'manifold_cross_section_rotate', 'CrossSection::Rotate(double)', r'_ZNK8manifold12CrossSection6RotateEd', 'vf_stub_D'),
+  (5, 'manifold_cross_section_simplify', 'CrossSection::Simplify(double)', r'_ZNK8manifold12CrossSection8SimplifyEd', 'vf_stub_D'),
+  (6, 'manifold_cross_section_transform', 'CrossSection::Transform(mat2x3) (6 scalars, column-major)', r'_ZNK8manifold12CrossSection9TransformERKN6linalg3matIdLi2ELi3EEE', 'vf_stub_M23'),
+  (7, 'manifold_cross_section_offset', 'CrossSection::Offset(delta, JoinType, miter_limit, circular_segments) incl. the ManifoldJoinType mapping', r'_ZNK8manifold12CrossSection6OffsetEdNS_8JoinTypeEdi', 'vf_stub_OFF'),
+  (8, 'manifold_cross_section_boolean', 'CrossSection::Boolean(const CrossSection&, OpType) incl. the ManifoldOpType mapping', r'_ZNK8manifold12CrossSection7BooleanERKS0_NS_6OpTypeE', 'vf_stub_CO'),
+]
+PROPERTIES['C20']['obligations'] += [
+    dict(name='fwcs_' + w[len('manifold_cross_section_'):], harness='c20_forward_cs.cpp', entry='h_fw', defs={'VF_W': k},
+         redirect={pat + '$': stub, r'_ZN8manifold12CrossSectionC[12]ERKS0_$': 'vf_stub_copy', r'_ZN8manifold12CrossSectionD[12]Ev$': 'vf_stub_dtor'},
+         backends=['minisat'], timeout=300, unwind={'default': 13},
+         claim='%s forwards to %s: called exactly once on the object passed in, every argument bit-identical and in order, result copy-constructed at the caller\'s address from the method\'s return value, the temporary destroyed exactly once, handle returned = mem' % (w, m),
+         bounds='all argument values (every 64-bit pattern of each double, every int, every enum value); the C++ method, CrossSection copy constructor and destructor are recording stubs (they live in cross_section.cpp)',
+         targets=['bindings/c/cross.cpp ' + w, 'bindings/c/conv.cpp from_c/to_c'])
+    for k, w, m, pat, stub in _FWCS]
 PROPERTIES['C19']['obligations'] += [
     dict(name='compose_tolerance_floor', harness='c19_compose.cpp', entry='h_compose', models=['stdlib.h', 'rbtree.h', 'pthread.h'],
          redirect={'_ZN8manifold3VecIiLb1EE13resize_nofillEm': 'vf_stub_resize_nofill'},
